@@ -482,9 +482,6 @@ def check_obs(ctx, case, k, name, o, win, prefix, level, crashed=None, hint=None
     base = name.split("@")[0]
     crashed = crashed if crashed is not None else set()
     if "raised" in o:
-        if o["raised"] == "ZeroDivisionError" and base in ("var0", "var1", "std0", "std1") and len(prefix) == 0:
-            ctx.count("var-raises-before-first-row")     # no row seen: nothing claimed
-            return True
         sig = "raised:%s:%s" % (o["raised"], base)
         if case["diff"] == "loc" and (o["raised"] == "IndexError" or name in crashed):
             sig = "diff-loc-inclusive-cut"       # the newest row itself was cut away: the deque ran empty
@@ -602,8 +599,6 @@ def _check_case(ctx, case, answers, stream, batches, prefixes, wins):
                 bad = "model result %s has duplicate keys: %r" % (name, ans[name])
                 break
             if "raised" in o:
-                if o["raised"] == "ZeroDivisionError" and name in ("var0", "var1") and len(prefixes[k]) == 0:
-                    continue
                 if o["raised"] == "AssertionError" and model_value(name, ans) == "assert":
                     continue
                 bad = "batch %d %s: code raised %s, model %r" % (k, name, o["raised"], ans[name])
@@ -754,7 +749,7 @@ def run(ctx):
         "values are small-integer valued floats or NaN, so sums, counts and sums of squares are exact in binary64 and equal the model's rationals; quotients (mean, var, std) are compared with relative/absolute tolerance 1e-9",
         "std is var ** 0.5 applied by a downstream map node; it is checked against pandas at the API level only",
         "Mean is modelled as repaired by the C06 fix (NaN for a window without any non-NaN value, true count stored); on a tree without that fix the oracle reports signature mean-substitute-persisted",
-        "Var raises ZeroDivisionError while no row has been seen at all (state still Python ints): nothing claimed there",
+        "before any row has been seen a column's var / std is NaN like pandas' (Var used to raise ZeroDivisionError there: repaired in /repo 445f1a7, and judged like every other batch)",
         "value_counts keeps entries whose count dropped to 0; the oracle ignores zero entries (every value present in the window is reported with its exact count)",
         "var/std with ddof in {0, 1} only",
         "group keys are integers (no NaN keys); the streaming grouper is derived from the same source batch as the frame (zip of two branches of one source)",
